@@ -55,8 +55,9 @@ def _selftest(prop, code):
             fd.write("\n")
     except OSError:
         pass
-    print("selftest property=%s variants=%d detected=%d twins_silent=%d skipped=%d wall=%.1fs" % (
-        prop, summary["variants"], summary["break_detected"], summary["twins_silent"], len(summary["skipped"]), time.time() - t0))
+    print("selftest property=%s variants=%d detected=%d twins_silent=%d seeded_detected=%d/%d skipped=%d wall=%.1fs" % (
+        prop, summary["variants"], summary["break_detected"], summary["twins_silent"], summary.get("seeded_changes_detected", 0),
+        len(summary.get("seeded_changes", [])), len(summary["skipped"]), time.time() - t0))
     for f in failures:
         print("SELFTEST-MISS property=%s %s" % (prop, f))
     if failures and code == 0:
